@@ -22,6 +22,9 @@ fn main() {
         Some("raw") => service::raw(&args[1..]),
         Some("bind") => service::bind(&args[1..]),
         Some("host-style") => service::host_style(),
+        Some("copy-source") => service::copy_source(),
+        Some("events") => service::events(),
+        Some("presigned-date") => service::presigned_date(&args[1..]),
         Some("wire-stream") => service::wire_stream(&args[1..]),
         Some("dispatch") => service::dispatch(),
         Some("host-config") => service::host_config(),
